@@ -231,7 +231,7 @@ def render(prog, modname):
             exc = {0: 'ValueError("zq%dzq")' % msg, 1: 'Opaque("zq%dzq", 1)' % msg, 2: '%s("zq%dzq")' % ("NmSub" if msg % 2 else "NonMemoizedException", msg),
                    3: 'shutil.Error("zq%dzq")' % msg, 4: 'configparser.Error("zq%dzq")' % msg}[cls]
             L += ["    if a >= 0 and a %% %d == %d:" % (m, r), "        raise %s" % exc]
-        L.append("    return s + %d" % d["const"])
+        L.append("    return s + %d + 10 * a" % d["const"])      # the value depends on the argument
         L.append("")
     return "\n".join(L) + "\n"
 
@@ -249,6 +249,8 @@ class RunWorld:
         from twosigma.memento.storage_filesystem import FilesystemStorageBackend
         self.m = m
         self.prog = prog
+        self.backend = backend
+        self.budget_mb = budget_mb
         _counter[0] += 1
         self.modname = "cp_%d_%d" % (os.getpid(), _counter[0])
         self.dir = tempfile.mkdtemp(prefix="cprog_", dir=root)
@@ -272,6 +274,19 @@ class RunWorld:
         if self.model:
             for ln in model_lines(prog):
                 self.model.send(ln)
+
+    def reopen(self):
+        """a new session on the same store: a fresh backend object (empty memory cache) on the same directory"""
+        from twosigma.memento import Environment, ConfigurationRepository, FunctionCluster
+        from twosigma.memento.storage_filesystem import FilesystemStorageBackend
+        if self.backend == "memory":
+            return
+        kw = {}
+        if self.backend == "fs+cache":
+            kw["memory_cache_mb"] = self.budget_mb or 0.002
+        self.storage = FilesystemStorageBackend(path=os.path.join(self.dir, "store"), **kw)
+        self.m.Environment.set(Environment(name="cp", base_dir=self.dir, repos=[
+            ConfigurationRepository(name="r", clusters={"cp": FunctionCluster(name="cp", storage=self.storage)})]))
 
     def close(self):
         self.m.Environment.set(self.orig_env)
